@@ -45,8 +45,8 @@ def all_targets():
     out = set()
     for pid, c in CHECKS.items():
         for tier in ("quick", "thorough"):
-            for h, v, _w in c.get(tier, []):
-                out.add((h, v))
+            for e in c.get(tier, []):
+                out.add((e[0], e[1]))
     return sorted(out)
 
 
